@@ -29,6 +29,7 @@ type bufOps struct {
 	rs      func() string
 	rb      func() []byte
 	getMode func() int
+	grow    func(int)
 	takeS   func() string
 	takeB   func() []byte
 	reset   func()
@@ -47,6 +48,7 @@ func newBuilderOps() *bufOps {
 		rs:      func() string { return string(b.RedactableString()) },
 		rb:      func() []byte { return []byte(b.RedactableBytes()) },
 		getMode: func() int { return int(b.GetMode()) },
+		grow:    func(n int) { b.Grow(n) },
 		takeS:   func() string { return string(b.TakeRedactableString()) },
 		takeB:   func() []byte { return []byte(b.TakeRedactableBytes()) },
 		reset:   func() { b.Reset() },
@@ -68,6 +70,7 @@ func newManualOps() *bufOps {
 		rs:      func() string { return string(b.RedactableString()) },
 		rb:      func() []byte { return []byte(b.RedactableBytes()) },
 		getMode: func() int { return int(b.GetMode()) },
+		grow:    func(n int) { b.Grow(n) },
 		takeS:   func() string { return string(b.TakeRedactableString()) },
 		takeB:   func() []byte { return []byte(b.TakeRedactableBytes()) },
 		reset:   func() { b.Reset() },
@@ -97,7 +100,7 @@ func applyManualRaw(b *redact.ManualBuffer, o Op) {
 	}
 }
 
-var accessors = []string{"Len", "Cap", "String", "RedactableString", "RedactableBytes", "GetMode"}
+var accessors = []string{"Len", "Cap", "String", "RedactableString", "RedactableBytes", "GetMode", "Grow"}
 var resetters = []string{"Reset", "TakeRedactableString", "TakeRedactableBytes"}
 
 // kept is a string obtained from the object, with a private copy made at that moment.
@@ -157,6 +160,9 @@ func c13accessors(w *Worker, mk func() *bufOps, h []Op, base string, pos int, ac
 			}
 		case "GetMode":
 			_ = b.getMode()
+		case "Grow":
+			// only capacity may change (a negative count is a documented panic and not used)
+			b.grow([]int{0, 1, 7, 64, 200}[(pos+len(h))%5])
 		}
 	}
 	for i := 0; i <= len(h); i++ {
